@@ -320,11 +320,65 @@ MEMO_PARAM_TABLE = {
 CONTEXT_PARAMS = {'graph': 'cache dictionaries handed down the graph algorithms are created per graph by their owner'}
 
 
+def _closure_frees(fn):
+    """nested def name -> names it reads from the enclosing function (free variables, transitively through other
+    nested defs it calls)."""
+    nested = {s.name: s for s in ast.walk(fn.node) if isinstance(s, (ast.FunctionDef, ast.AsyncFunctionDef))
+              and s is not fn.node}
+    out = {}
+    for name, nd in nested.items():
+        a = nd.args
+        own = {x.arg for x in a.args + a.kwonlyargs + a.posonlyargs}
+        if a.vararg:
+            own.add(a.vararg.arg)
+        if a.kwarg:
+            own.add(a.kwarg.arg)
+        nonlocal_names = {n for st in ast.walk(nd) if isinstance(st, ast.Nonlocal) for n in st.names}
+        own |= {x.id for x in ast.walk(nd) if isinstance(x, ast.Name) and isinstance(x.ctx, ast.Store)} - nonlocal_names
+        out[name] = {x.id for x in ast.walk(nd) if isinstance(x, ast.Name) and isinstance(x.ctx, ast.Load)
+                     and x.id not in own}
+    return out
+
+
+def _enclosing_loop_iters(fn):
+    """id(statement) -> iteration expressions of the `for` loops of fn that enclose it (which iteration's value
+    survives a loop depends on what is iterated)."""
+    out = {}
+
+    def rec(body, iters):
+        for st in body:
+            out[id(st)] = list(iters)
+            if isinstance(st, (ast.FunctionDef, ast.AsyncFunctionDef, ast.ClassDef)):
+                continue
+            inner = iters + [st.iter] if isinstance(st, (ast.For, ast.AsyncFor)) else iters
+            for f in ('body', 'orelse', 'finalbody'):
+                b = getattr(st, f, None)
+                if isinstance(b, list) and b and isinstance(b[0], ast.stmt):
+                    rec(b, inner if f == 'body' else iters)
+            for h in getattr(st, 'handlers', []):
+                rec(h.body, iters)
+    if not isinstance(fn.node, ast.Lambda):
+        rec(fn.node.body, [])
+    return out
+
+
 def _param_leaves(fn, expr, at, rd):
+    """Parameters (and other entry-defined names) the value of expr at node `at` depends on: closure of the
+    reaching definitions, through the free variables of nested functions that are called, and through the
+    iteration expressions of the loops that enclose a definition."""
     from ..cfg import node_exprs
+    frees = _closure_frees(fn)
+    loops = _enclosing_loop_iters(fn)
     deps = set()
     seen = set()
-    work = [(n, at) for n in names_used(expr)]
+
+    def uses(e):
+        out = set(names_used(e))
+        for c in ast.walk(e):
+            if isinstance(c, ast.Call) and isinstance(c.func, ast.Name) and c.func.id in frees:
+                out |= frees[c.func.id]
+        return out
+    work = [(n, at) for n in uses(expr)]
     while work:
         nm, node = work.pop()
         for d in rd.defs_of(nm, node):
@@ -336,8 +390,12 @@ def _param_leaves(fn, expr, at, rd):
             else:
                 for e in node_exprs(d):
                     if e is not None:
-                        for n2 in names_used(e):
+                        for n2 in uses(e):
                             work.append((n2, d))
+                st = getattr(d, 'stmt', None)
+                for it in loops.get(id(st), []) if st is not None else []:
+                    for n2 in uses(it):
+                        work.append((n2, d))
     return deps
 
 
@@ -407,4 +465,12 @@ def check_memo_functions(ctx, functions, rule='A2p'):
                        f'key <- {sorted(kd)}, value <- {sorted(vd)}' if not missing else
                        f'the stored value depends on parameter(s) {missing} that do not feed the key `{key}` '
                        f'(key <- {sorted(kd)}): calls that differ only in them share one entry')
+    return n
+
+
+def check_decode_memos(ctx, rule='A2p', floor=3):
+    """A2p on the graph processor and the hierarchy analyzers (the memoising stores on the decode path)."""
+    n = check_memo_functions(ctx, [f for f in ctx.prog.all_functions() if f.module.name.startswith(
+        ('adsg_core.optimization.graph_processor', 'adsg_core.optimization.hierarchy'))], rule=rule)
+    ctx.floor(rule, floor, 'memoising stores in the graph processor / hierarchy analyzers')
     return n
